@@ -10,4 +10,5 @@ python3-vt tools/build.py plain pv_driver > /dev/null || rc=2
 python3-vt tools/build.py plain pv_mpi > /dev/null || rc=2
 python3-vt tools/build.py cplx pv_driver > /dev/null || rc=2     # complex matrix-element build (C03, C04, C07, C10)
 python3-vt tools/build.py asan pv_driver > /dev/null || rc=2     # sanitizer build (C17)
+python3-vt tools/build.py plain pv_termlist > /dev/null || rc=2  # term container (C01, C02, C14)
 exit $rc
